@@ -120,6 +120,9 @@ pub enum TyperError {
     /// Attribute on a function has an unexpected number of arguments
     FunctionAttributeUnexpectedArgumentCount(String, SourceLocation),
 
+    /// Function attribute was given more than once
+    FunctionAttributeDuplicate(String, SourceLocation),
+
     /// Attribute on a statement has an unknown name
     StatementAttributeUnknown(String, SourceLocation),
 
@@ -786,6 +789,11 @@ impl CompileError for TyperExternalError {
                         "unexpected number of arguments to function attribute '{name}'"
                     )
                 },
+                *loc,
+                Severity::Error,
+            ),
+            TyperError::FunctionAttributeDuplicate(name, loc) => w.write_message(
+                &|f| write!(f, "function attribute '{name}' is given more than once"),
                 *loc,
                 Severity::Error,
             ),
